@@ -95,7 +95,7 @@ def calls(E, suffix):
 
 def bit_selector(t):
     """(subject, shift) if t tests one bit of subject: Ne(BitAnd(subject, Shl(1, s)), 0) or BitAnd(Shr(subject, s), 1)[!= 0]"""
-    if t[0] == "bin" and t[1] == "Ne" and t[3] == ("int", 0):
+    if t[0] == "bin" and ((t[1] == "Ne" and t[3] == ("int", 0)) or (t[1] == "Eq" and t[3] == ("int", 1))):
         t = t[2]
     if t[0] == "call" and t[1].endswith("::bitand") and len(t[2]) == 2:
         t = ("bin", "BitAnd", t[2][0], t[2][1])
@@ -103,6 +103,8 @@ def bit_selector(t):
         for a, b in ((t[2], t[3]), (t[3], t[2])):
             if b[0] == "bin" and b[1] == "Shl" and b[2] == ("int", 1):
                 return (a, b[3])
+            if b[0] == "bin" and b[1] == "Shr" and b[2] == ("int", 128):
+                return (a, ("bin", "Sub", ("int", 7), b[3]))          # 0x80 >> s  ==  1 << (7 - s)
             if b == ("int", 1) and a[0] == "bin" and a[1] == "Shr":
                 return (a[2], a[3])
     return None
@@ -160,12 +162,13 @@ def run(ctx, rep):
     rep.rule("C13.window", "byte_slice_window: bytes start/8 .. ceil(end/8), counter = start % 8")
     rep.rule("C13.natural", "encoder/decoder agree on the frame of the natural-number code")
 
-    def one(path, what=None):
+    def one(path, what=None, inline=True):
         fs = [f for p, f in F.fns.items() if p == path]
         if len(fs) != 1:
             rep.anchor("C13.state", what or path)
             return None
-        return fs[0]
+        g = F.inlined(fs[0]) if inline else fs[0]          # private same-file helpers (an extracted `spill`, `refill`, ...) are spliced in
+        return g
 
     # ------------------------------------------------------------------ reader: next
     nxt = one("<%s<I> as std::iter::Iterator>::next" % RD)
@@ -244,6 +247,8 @@ def run(ctx, rep):
             for a, b in ((t[2], t[3]), (t[3], t[2])):
                 if field(a) == C and b[0] == "bin" and b[1] == "Shl" and b[2] == ("int", 1):
                     sh = b[3]
+                if field(a) == C and b[0] == "bin" and b[1] == "Shr" and b[2] == ("int", 128):
+                    sh = ("bin", "Sub", ("int", 7), b[3])
             if sh is None:
                 rep.violation("C13.bitorder", "writer:shape", "BitWriter::write_bit does not OR one bit into its cache: %s" % show(t), wb.where())
             else:
@@ -503,7 +508,7 @@ def run(ctx, rep):
             rep.anchor("C13.window", "byte_slice_window: the byte sub-slice")
 
     # ------------------------------------------------------------------ naturals
-    enc = one("simplicity::bit_encoding::encode::encode_natural")
+    enc = one("simplicity::bit_encoding::encode::encode_natural", inline=False)
     if enc:
         n_ok = 0
         for E in evals(enc):
